@@ -71,6 +71,8 @@ class FloorLinear:
                 return FL(0, 0, 0, m, True)
             if op == 'shr' and va.is_int and va.a == 0 and va.b == 0 and vb.lo == vb.hi and va.lo >= 0:
                 s = int(vb.lo); return FL(0, 0, int(va.lo) >> s, int(va.hi) >> s, True)
+            if op == 'div' and va.is_int and va.a == 0 and va.b == 0 and vb.a == 0 and vb.b == 0 and vb.lo == vb.hi and vb.lo > 0 and va.lo >= 0:
+                s_ = int(vb.lo); return FL(0, 0, int(va.lo) // s_, int(va.hi) // s_, True)
             if op == 'rem' and va.is_int and vb.a == 0 and vb.b == 0 and vb.lo == vb.hi and vb.lo > 0:
                 m = int(vb.lo); lo, hi = self.conc(va)
                 if lo >= 0 and hi < m: return va
